@@ -270,6 +270,16 @@ func (fx *Fx) havocTrace(st *State) {
 	n1 := fx.d.freshConst("T_n", SInt)
 	st.assume(app("<=", n0, n1))
 	st.trN = n1
+	// whoever extended the trace may also have read the context's error
+	if g, ok := st.ghost["ctxerrat"]; ok {
+		c := fx.d.freshConst("ctxerrat", SInt)
+		st.assume(and(app("<=", g.X, c), app("<=", c, n1)))
+		st.ghost["ctxerrat"] = Val{T: g.T, S: SInt, X: c}
+	} else {
+		c := fx.d.freshConst("ctxerrat", SInt)
+		st.assume(and(app("<=", "(- 1)", c), app("<=", c, n1)))
+		st.ghost["ctxerrat"] = Val{T: types.Typ[types.Int], S: SInt, X: c}
+	}
 	for _, col := range sortedKeys(st.trCols) {
 		old := st.trCols[col]
 		sort, _ := fx.v.traceColSort(fx, col)
